@@ -234,3 +234,35 @@ func vProbe_C04_attr(a []string) string {
 func vProbe_C04_ref(a []string) string {
 	return string([]byte{'A' + refAttrClass(a[0], a[1], c04Rels[int(a[2][0])%len(c04Rels)])})
 }
+
+// URL contexts always run the URL sanitizer and the normalizer: for every (element,
+// attribute) pair whose reviewed class is URL-valued, the sanitizer chain chosen for an
+// action at the start of the quoted value holds the class's sanitizer and _normalizeURL.
+func vHarness_C04_urlchain() {
+	le, la := vParam("le"), vParam("la")
+	rel := c04Rels[vParam("rel")]
+	e := vNondetString("e", le)
+	a := vNondetString("a", la)
+	c := vAttrContext(e, a, "", delimDoubleQuote, rel)
+	chain, err := sanitizerForContext(c)
+	if err != nil {
+		vReach("rejected")
+		return
+	}
+	want := refAttrClass(e, a, rel)
+	if want != refClassURL && want != refClassTrustedResourceURLOrURL && want != refClassTrustedResourceURL {
+		return
+	}
+	vReach("url-context")
+	san, norm := false, false
+	for _, f := range chain {
+		if f == sanitizeURLFuncName || f == sanitizeTrustedResourceURLOrURLFuncName || f == sanitizeTrustedResourceURLFuncName {
+			san = true
+		}
+		if f == normalizeURLFuncName {
+			norm = true
+		}
+	}
+	vAssert(san, "a URL-valued attribute runs no URL sanitizer")
+	vAssert(norm, "a URL-valued attribute does not run the URL normalizer")
+}
